@@ -300,6 +300,8 @@ def setBarrier (qbits : List Nat) (s : St) : Res St :=
   match qbits.find? (fun b => b ≥ s.nq) with
   | some b => .err (.invalidQBit b)
   | none =>
+    if qbits.isEmpty then .ok s       -- a barrier on no qubits draws nothing (no column either)
+    else
     match getRanges qbits with
     | none => .panic
     | some ranges => barrierLoop ranges (addColumn s)
@@ -481,12 +483,10 @@ def opLatex (nq : Nat) : Op → St → Res St
   | .peekAll _ _, _ => .err .notImplemented
   | .reset q, s => setReset q s
   | .resetAll, s =>
-    match nq with
-    | 0 => .panic         -- `self.nr_qbits-1`
-    | n+1 =>
-      startRangeOp [0, n] none s >>== fun s =>
-      resetLoop 0 (n+1) s >>== fun s =>
-      endRangeOp s
+    -- `let qbits: Vec<usize> = (0..self.nr_qbits).collect(); state.start_range_op(&qbits, None)?`
+    startRangeOp (List.range nq) none s >>== fun s =>
+    resetLoop 0 nq s >>== fun s =>
+    endRangeOp s
   | .barrier qbits, s => setBarrier qbits s
 
 def opsLatex (nq : Nat) : List Op → St → Res St
